@@ -58,7 +58,9 @@ func (v *VarDef) write(buf *bytes.Buffer) {
 	_, _ = buf.WriteString("$")
 	_, _ = buf.WriteString(v.Name)
 	_, _ = buf.WriteString(": ")
-	_, _ = buf.WriteString(v.Type.Name())
+	if v.Type != nil { // nil when the request did not give one, reported by Validate
+		_, _ = buf.WriteString(v.Type.Name())
+	}
 	if v.Default != nil {
 		_, _ = buf.WriteString(" = ")
 		_, _ = buf.WriteString(valueString(v.Default))
